@@ -138,10 +138,10 @@ def build_package(d, name, spec):
         wav = np.array([BAND_WAV[bands[i]] for i in order])
         if apdep:
             val = np.transpose(spec['tables'], (0, 2, 1))[:, :, order]       # (n_models, n_ap, n_wav)
-            pkgwriter.write_cube(md, names, wav, val, unc=val * 0.01, apertures_au=spec['apertures'])
+            pkgwriter.write_cube(md, names, wav, val, unc=val * 0.01, apertures_au=spec['apertures'], valid=spec.get('valid'))
         else:
             val = spec['flux'][:, None, :][:, :, order]
-            pkgwriter.write_cube(md, names, wav, val, unc=val * 0.01, apertures_au=None)
+            pkgwriter.write_cube(md, names, wav, val, unc=val * 0.01, apertures_au=None, valid=spec.get('valid'))
     return md
 
 
